@@ -148,8 +148,15 @@ func c14Worker(args []string) int {
 		if spec.Feeder == "rekor" {
 			l.url = "http://" + host + "/?treeID=1"
 		}
+		prefix := ""
+		if spec.Feeder != "rekor" && spec.Feeder != "sumdb" && i%2 == 1 {
+			// Every other log is served below a path, as most shipped entries
+			// are (".../armory-drive-log/master/log/", ".../ftlog/lvfs/").
+			prefix = fmt.Sprintf("mirror/logs/%d/", i)
+			l.url = "http://" + host + "/" + prefix
+		}
 		l.id = uni.ID(l.origin)
-		l.srv = &stublog.Server{Flavour: flavour, Branch: u.Main, Hashes: mainSrv.Hashes, TreeID: "1"}
+		l.srv = &stublog.Server{Flavour: flavour, Branch: u.Main, Hashes: mainSrv.Hashes, TreeID: "1", Prefix: prefix}
 		// Nothing published yet: the checkpoint endpoint answers 404.
 		l.srv.Answer = func(int, string) string { return "http-404" }
 		byHost.m[host] = l.srv
